@@ -303,12 +303,15 @@ func vtChild(t *testing.T) {
 			// megabytes of fragment sets that contradict themselves (two different "last"
 			// fragments), each under its own identification: whatever the reassembler does with
 			// them, it must give their memory back and go on serving
-			sets := fw.N(100, 400)
+			sets := fw.N(240, 800)
 			for i := 0; i < sets; i++ {
 				id := uint16(1000 + i)
+				// large sets first, then small ones (a large fragment that would take the
+				// reassembler over its memory limit is evicted before its set is complete; small
+				// ones use up whatever headroom is left)
 				size := 65000
-				if i%4 == 3 {
-					size = 1000 + 8*(i%100)
+				if i%4 == 3 || i >= sets/2 {
+					size = 600 + 8*(i%100)
 				}
 				for _, c := range [][3]int{{0, 8, 1}, {32, size, 0}, {8, 8, 0}} {
 					fr := rfc.IPv4{TTL: 64, Proto: rfc.ProtoUDP, ID: id, Src: tg.c.P4, Dst: tg.c.S4, Flags: uint8(c[2]), FragOff: uint16(c[0] / 8), Payload: make([]byte, c[1])}
@@ -317,7 +320,7 @@ func vtChild(t *testing.T) {
 				if i%16 == 15 {
 					rawpeer.Settle()
 					if m := tg.probes(i); m != "" {
-						run.Violation("C07/not-serving", fmt.Sprintf("after %d contradictory fragment sets (about %d KiB) the stack no longer serves: %s", i+1, (i+1)*48), map[string]interface{}{"sets": i + 1})
+						run.Violation("C07/not-serving", fmt.Sprintf("after %d contradictory fragment sets the stack no longer serves: %s", i+1, m), map[string]interface{}{"sets": i + 1})
 						break
 					}
 					run.Count("probe_rounds_passed", 1)
